@@ -115,6 +115,8 @@ pub struct FaultState {
     pub chunk: Option<usize>,
     /// Interrupted on every n-th read/write call when set (n >= 2)
     pub interrupt_every: Option<u64>,
+    pub transfers: u64,
+    pub last_interrupted: bool,
     /// faults actually delivered: (call index, kind, tag)
     pub delivered: Vec<(u64, CallKind, u32)>,
 }
@@ -129,6 +131,8 @@ impl FaultCtl {
     pub fn arm(&self, plan: BTreeMap<u64, Fault>, record: bool) {
         let mut s = self.0.lock().unwrap();
         s.count = 0;
+        s.transfers = 0;
+        s.last_interrupted = false;
         s.armed = true;
         s.plan = plan;
         s.record = record;
@@ -170,10 +174,17 @@ impl FaultCtl {
             s.log.push((kind, tag));
         }
         let mut fault = s.plan.get(&idx).copied();
-        if fault.is_none() {
+        if fault.is_none() && (kind == CallKind::Read || kind == CallKind::Write) {
             if let Some(n) = s.interrupt_every {
-                if (kind == CallKind::Read || kind == CallKind::Write) && idx % n == n - 1 {
+                // counted over transfers only, and never twice in a row: an
+                // interrupted call must succeed when it is retried
+                let t = s.transfers;
+                s.transfers += 1;
+                if t % n == n - 1 && !s.last_interrupted {
                     fault = Some(Fault::Interrupted);
+                    s.last_interrupted = true;
+                } else {
+                    s.last_interrupted = false;
                 }
             }
         }
